@@ -45,8 +45,8 @@ SPEC = {
                         "comparing a history at such a state (lib.ambiguous_placeholders), the oracle still judges it"],
     },
     "C03": {
-        "LEAN": {"modules": ["GfaProofs.C03", "GfaProofs.C03Perm", "GfaProofs.C12Orient", "GfaProofs.C13"], "support": ["GfaModel.Graph", "GfaModel.Version", "GfaProofs.C02", "GfaProofs.C09"],
-                 "theorems": ["Gfa.C03.pathLinks_perm", "Gfa.C03.build_simple_perm", "Gfa.C03.build_simple", "Gfa.C03.build_simple_placeholders", "Gfa.C03.add_step",
+        "LEAN": {"modules": ["GfaProofs.C03", "GfaProofs.C03Perm", "GfaProofs.C12Orient", "GfaProofs.Bridge.PathOrient", "GfaProofs.C13"], "support": ["GfaModel.Graph", "GfaModel.Version", "GfaProofs.C02", "GfaProofs.C09"],
+                 "theorems": ["Gfa.C03.pathLinks_perm", "Gfa.Bridge.PathOrient.linkOrient_eq", "Gfa.C03.build_simple_perm", "Gfa.C03.build_simple", "Gfa.C03.build_simple_placeholders", "Gfa.C03.add_step",
                               "Gfa.C03.validSimple_perm", "Gfa.C03.defined_not_virtual", "Gfa.C03.add_defines", "Gfa.C03.add_cases", "Gfa.C03.ensureRefs_keeps",
                               "Gfa.C13.build_perm", "Gfa.C13.build_eq_spec", "Gfa.C02.closed_reachable_partial", "Gfa.C09.nodup_reachable"]},
         "ASSUMPTIONS": ["order independence is proved in Lean for documents of segments and segment-referencing lines (S, L, C, E, G, F; with or "
